@@ -163,7 +163,14 @@ func (x *Exec) finalize(obls []*Obl) {
 		// an element of a backing array that existed at entry existed at entry
 		x.D.Fun("elemref", SInt, Sym("b", SInt), Sym("i", SBV64))
 		decls = x.D.Text()
-		ax = append(ax, &Term{S: fmt.Sprintf("(forall ((b Int) (i (_ BitVec 64))) (! (=> (<= b (* %d |alloc0|)) (<= (elemref b i) (* %d |alloc0|))) :pattern ((elemref b i))))", refK, refK), Sort: SBool})
+		ax = append(ax, &Term{S: fmt.Sprintf("(forall ((|ax?b| Int) (|ax?i| (_ BitVec 64))) (! (=> (<= |ax?b| (* %d |alloc0|)) (<= (elemref |ax?b| |ax?i|) (* %d |alloc0|))) :pattern ((elemref |ax?b| |ax?i|))))", refK, refK), Sort: SBool})
+	}
+	if _, ok := x.D.funs["seq_of_str"]; ok {
+		// []byte(s) determines s: string([]byte(s)) == s
+		x.D.Fun("str_of_seq", SStr, Sym("q", SSeq))
+		x.D.Fun("seq_of_str", SSeq, Sym("s", SStr))
+		decls = x.D.Text()
+		ax = append(ax, &Term{S: "(forall ((|ax?s| GoStr)) (! (= (str_of_seq (seq_of_str |ax?s|)) |ax?s|) :pattern ((seq_of_str |ax?s|))))", Sort: SBool})
 	}
 	for _, o := range obls {
 		o.Decls = decls
